@@ -147,7 +147,7 @@ class DriverCrash(Exception):
     pass
 
 
-JOB_TIMEOUT_S = 20  # per job, enforced inside the driver (each job runs in a forked child)
+JOB_TIMEOUT_S = 6  # per job, enforced inside the driver (each job runs in a forked child)
 
 
 def run_jobs(binary: str, jobs: list, scratch: str, tag: str = "jobs", timeout: int | None = None) -> list:
